@@ -47,6 +47,18 @@ def run(ck):
         p = {"xc": N / 2 + rng.uniform(-2.5, 2.5), "yc": N / 2 + rng.uniform(-2.5, 2.5), "flux": 100.0, "r_eff": rng.uniform(2.0, N / 12),
              "n": rng.uniform(1.0, 5), "ellip": rng.uniform(0.5, 0.8), "theta": rng.choice([0.5, 1.1, 2.0, 2.6]) + rng.uniform(-0.2, 0.2)}
         cases.append({"renderer": "hybrid8", "N": N, "params": p, "psf": "gauss", "fwhm": rng.uniform(2.5, 4.0), "half_light": False})
+    for i in range(2 if quick else 12):
+        # composite profiles: two components with DIFFERENT ellipticities, sizes and indices about one centre and angle
+        N = rng.choice([48, 64])
+        prof = ["sersic_exp", "doublesersic"][i % 2]
+        e1, e2 = rng.choice([(0.3, 0.75), (0.75, 0.3), (0.35, 0.6)])
+        p = {"xc": N / 2 + rng.uniform(-2.5, 2.5), "yc": N / 2 + rng.uniform(-2.5, 2.5), "flux": 100.0, "f_1": rng.uniform(0.3, 0.7),
+             "r_eff_1": rng.uniform(2.0, N / 16), "r_eff_2": rng.uniform(2.5, N / 12), "ellip_1": e1, "ellip_2": e2, "theta": rng.uniform(0, 6.28)}
+        if prof == "sersic_exp":
+            p["n"] = rng.uniform(1.0, 3.0)
+        else:
+            p["n_1"], p["n_2"] = rng.uniform(1.0, 3.0), rng.uniform(0.8, 2.0)
+        cases.append({"renderer": ["fourier", "hybrid", "pixel"][(i // 2) % 3], "profile": prof, "N": N, "params": p, "psf": "gauss", "fwhm": rng.uniform(2.5, 4.0), "half_light": False})
     ck.log("implementation: %d renderings vs the reference renderer" % len(cases))
     import concurrent.futures as cf
     nsh = min(6, vlib.NCPU)
